@@ -140,7 +140,28 @@ func (c *Cluster) transfer(n *Node, target uint64, timeout time.Duration) error 
 	if !n.wait(t) {
 		return fmt.Errorf("gone")
 	}
-	return c.adminRet(n, "transfer", oid, t, func(r *ev.Rec) { r.Tgt = target })
+	err := c.adminRet(n, "transfer", oid, t, func(r *ev.Rec) { r.Tgt = target })
+	if err != nil {
+		// C16: a transfer that fails leaves the cluster able to keep or elect
+		// a leader - the node that answered must at least still answer
+		it := raft.GetInfo()
+		kind := "responsive"
+		if n.submitTaskWithin(it, 15*time.Second) {
+			select {
+			case <-it.Done():
+			case <-n.gone:
+				kind = "gone"
+			case <-time.After(15 * time.Second):
+				kind = "unresponsive"
+			}
+		} else if !n.isGone() {
+			kind = "unresponsive"
+		} else {
+			kind = "gone"
+		}
+		c.rc.emitNode(n.dir, &ev.Rec{K: "after-failed-transfer", OpID: oid, Kind: kind, Err: err.Error()})
+	}
+	return err
 }
 
 // changeConfig reads the latest configuration from n (public GetInfo),
